@@ -13,11 +13,20 @@ const stuffedKey = "STUFFEDPLAINTEXT"
 
 func genC11(r *Rand, tier string) *Case {
 	canary := fmt.Sprintf("CANARY%08x", uint32(r.U64()))
-	c := &Case{Server: ServerCfg{Limit: r.PickInt(4096, 65536), TLS: r.Pick("certs", "certs", "certs", "empty", "")}, Programs: map[string]*Program{}}
+	c := &Case{Server: ServerCfg{Limit: r.PickInt(1000, 4096, 4096, 65536), TLS: r.Pick("certs", "certs", "certs", "empty", "")}, Programs: map[string]*Program{}}
 	if r.Chance(1, 5) {
 		c.Server.Auth = "cleartext"
 	}
-	genHistory(r, c, histOpts{simple: true, extended: true, errs: r.Chance(1, 3), params: true, binary: true, closes: true, multi: true, terminate: r.Chance(1, 3), maxUnits: 4})
+	if r.Chance(1, 4) {
+		genGlobalParams(r, c)
+	}
+	// the session inside TLS also exercises the configured message limit, COPY
+	// and middleware: "otherwise behaves exactly like its plaintext equivalent"
+	if r.Chance(1, 4) {
+		c.Server.MW = []MWSpec{{}}
+	}
+	genHistory(r, c, histOpts{simple: true, extended: true, copy: r.Chance(1, 4), errs: r.Chance(1, 3), params: true, binary: true, closes: true, multi: true,
+		oversized: r.Chance(1, 2), sizes: r.Chance(1, 4), unknown: r.Chance(1, 5), terminate: r.Chance(1, 3), maxUnits: 4})
 	// every query text and command tag carries the canary
 	for _, p := range c.Programs {
 		for _, sp := range p.Stmts {
@@ -86,8 +95,19 @@ func genC11(r *Rand, tier string) *Case {
 		c.Variant = "ssl-inside-tls"
 	}
 	cc.TLS = tc
-	cc.Cuts = genCuts(r)
-	c.Sched = &SchedCase{Strategy: r.Pick("uniform", "pct", ""), Depth: 2}
+	// (no one-byte segmentation here: every read is a schedule decision and a
+	// TLS handshake moves several KiB)
+	switch r.Intn(4) {
+	case 0:
+		cc.Cuts = nil
+	case 1:
+		cc.Cuts = []int{r.PickInt(16, 64, 100)}
+	case 2:
+		cc.Cuts = []int{5, 500, 37}
+	case 3:
+		cc.Cuts = []int{r.PickInt(1000, 5000)}
+	}
+	c.Sched = &SchedCase{Strategy: r.Pick("uniform", "pct", ""), Depth: 2, MaxSteps: 400000}
 	return c
 }
 
